@@ -95,14 +95,17 @@ func (r *TaskRunner) SetVariables(vars variables.Container) *TaskRunner {
 func (r *TaskRunner) Run(t *task.Task) error {
 	r.cancelMutex.Lock()
 	if err := r.ctx.Err(); err != nil {
+		verifEvent(r, "RunRefused", t.Name, err)
 		r.cancelMutex.Unlock()
 		return err
 	}
 	r.inflight++
+	verifEvent(r, "RunEnter", t.Name, nil)
 	r.cancelMutex.Unlock()
 
 	defer func() {
 		r.cancelMutex.Lock()
+		verifEvent(r, "RunExit", t.Name, nil)
 		r.inflight--
 		if r.inflight == 0 {
 			r.idle.Broadcast()
@@ -187,15 +190,18 @@ func (r *TaskRunner) Run(t *task.Task) error {
 
 // Cancel cancels execution and waits until every task that is in flight has returned
 func (r *TaskRunner) Cancel() {
+	verifEvent(r, "CancelEnter", "", nil)
 	r.cancelMutex.Lock()
 	if !r.canceling {
 		r.canceling = true
 		defer logrus.Debug("runner has been cancelled")
 		r.cancelFunc()
 	}
+	verifEvent(r, "CancelSet", "", nil)
 	for r.inflight > 0 {
 		r.idle.Wait()
 	}
+	verifEvent(r, "CancelExit", "", nil)
 	r.cancelMutex.Unlock()
 }
 
